@@ -6,6 +6,8 @@ package jsonrpc2
 
 //@ guarded_by Remote.pending mu
 //@ guarded_by Server.registry mu
+// request ids are drawn from Client.id through sync/atomic only, so concurrent callers never share an id
+//@ atomic_only Client.id
 
 //@ interface jsonrpc2.Service.Call(ctx, result, method, params) (err)
 //@ defines [effect] effects == old(effects) + 1
@@ -74,20 +76,29 @@ package jsonrpc2
 //@ loop 0 invariant [only-deletes]  forall k string :: has(r.pending, k) ==> old(has(r.pending, k)) && r.pending[k] == old(r.pending[k])
 //@ loop 0 invariant [locked] held(r.mu) && r.pending != nil
 
+//@ func (*Client).NextID
+//@ property C14 C10
+//@ inline
+
+// buffered(r): every pending reply channel can take one message without a receiver, so delivering a reply
+// (even one nobody waits for any more) never blocks the connection's read loop
+//@ pure buffered(r *Remote) bool = forall k string :: has(r.pending, k) ==> chancap(r.pending[k].msgChan) == 1
+
 //@ func (*Remote).pendingChan
 //@ property C10 C14
-//@ requires !held(r.mu)
+//@ requires !held(r.mu) && buffered(r)
+//@ ensures [delivery-never-blocks] buffered(r) && chancap(result) == 1
 //@ ensures [own-key]  has(r.pending, key) && result == r.pending[key].msgChan && (old(has(r.pending, key)) ==> result == old(r.pending[key].msgChan))
 //@                     && (waiting ==> r.pending[key].waiting)
 //@ ensures [waiters-untouched] forall k string :: k != key && old(has(r.pending, k)) && old(r.pending[k].waiting) ==> has(r.pending, k) && r.pending[k] == old(r.pending[k])
 //@ ensures [nothing-invented]  forall k string :: k != key && has(r.pending, k) ==> old(has(r.pending, k)) && r.pending[k] == old(r.pending[k])
 //@ ensures [unlocked] !held(r.mu)
-//@ modifies r.pending, fieldof(r.pending)
+//@ modifies r.pending, fieldof(r.pending), alloc
 
 //@ func (*Remote).getPendingChan
 //@ property C14
 //@ inline
-//@ requires !held(r.mu)
+//@ requires !held(r.mu) && buffered(r)
 
 // ---- codec and handler interfaces as seen by Remote ----------------------------------------
 //@ interface jsonrpc2.Codec.ReadMessage() (result, err)
@@ -108,7 +119,8 @@ package jsonrpc2
 //@ func (*Remote).receive
 //@ property C14 C15
 //@ safety on
-//@ requires r != nil && !held(r.mu)
+//@ requires r != nil && !held(r.mu) && buffered(r)
+//@ ensures [buffered] buffered(r)
 //@ ensures [result] err == nil ==> result != nil
 //@ ensures [unlocked] !held(r.mu)
 //@ ensures [forgets-only-its-own-entry] forall k string :: k != string(ID) && old(has(r.pending, k)) && old(r.pending[k].waiting) ==> has(r.pending, k) && r.pending[k] == old(r.pending[k])
@@ -117,7 +129,7 @@ package jsonrpc2
 //@ func (*Remote).Call
 //@ property C14 C15
 //@ safety on
-//@ requires r != nil && !held(r.mu)
+//@ requires r != nil && !held(r.mu) && buffered(r)
 //@ ensures [unlocked] !held(r.mu)
 //@ callreq receive [waits-for-the-id-it-sent] : arg1 == req.ID
 //@ callreq WriteMessage [sends-the-request-it-built] : arg0 == req
@@ -137,10 +149,10 @@ package jsonrpc2
 //@ func (*Remote).Serve
 //@ property C14 C15
 //@ safety on
-//@ requires r != nil && !held(r.mu)
+//@ requires r != nil && !held(r.mu) && buffered(r)
 //@ ensures [ends-only-on-read-error] err != nil
 //@ callreq getPendingChan [reply-delivered-under-its-own-id] : arg0 == string(msg.ID) && len(msg.ID) > 0 && msg.Request == nil
-//@ loop 0 invariant [lock] !held(r.mu)
+//@ loop 0 invariant [lock] !held(r.mu) && buffered(r)
 
 // ---- the stream codec (C17): messages are returned exactly once, in stream order, however the reader chunks them ----
 // codecInv: the codec's decoder (once created) pulls from the codec's own stream
